@@ -77,7 +77,7 @@ int gen_case(rng_t *r, const char *op, const genopt_t *g, sbuf_t *o, int rb, int
     if (IS("djb")) supplied = 0;
     else if (need_c && !(IS("addmul_m4rm") || IS("addmul") || IS("addmul_mp"))) supplied = 1;
     else if (need_c) supplied = rng_chance(r, 3, 4);
-    if (supplied) emit_mat(r, o, rb, m, n, "rand", 128);
+    if (supplied) emit_mat(r, o, rb, m, n, need_c ? "rand" : "junk", 128);
     if (IS("mul_m4rm") || IS("addmul_m4rm")) sb_printf(o, "op %s %d %d %d %d\n", op, rb, rb + 1, rb + 2, (int)rng_below(r, 9));
     else if (IS("mul") || IS("addmul") || IS("mul_mp") || IS("addmul_mp")) sb_printf(o, "op %s %d %d %d %ld\n", op, rb, rb + 1, rb + 2, pick_cutoff(r, m, l, n));
     else sb_printf(o, "op %s %d %d %d\n", op, rb, rb + 1, rb + 2);
@@ -86,7 +86,7 @@ int gen_case(rng_t *r, const char *op, const genopt_t *g, sbuf_t *o, int rb, int
   if (IS("sqr")) {
     int n = gen_dim(r, D);
     emit_mat(r, o, rb + 1, n, n, NULL, 0);
-    if (supplied) emit_mat(r, o, rb, n, n, "rand", 128);
+    if (supplied) emit_mat(r, o, rb, n, n, "junk", 128);
     sb_printf(o, "op sqr %d %d %ld\n", rb, rb + 1, pick_cutoff(r, n, n, n));
     return 2;
   }
@@ -130,7 +130,7 @@ int gen_case(rng_t *r, const char *op, const genopt_t *g, sbuf_t *o, int rb, int
     int n = gen_dim(r, D);
     if (IS("invert_naive") && n > 400) n = 1 + n % 400;
     emit_mat(r, o, rb + 1, n, n, "inv", 0);
-    if (supplied) emit_mat(r, o, rb, n, n, "rand", 128);
+    if (supplied) emit_mat(r, o, rb, n, n, "junk", 128);
     if (IS("inv_m4ri")) sb_printf(o, "op inv_m4ri %d %d %d\n", rb, rb + 1, (int)rng_below(r, 9));
     else sb_printf(o, "op invert_naive %d %d\n", rb, rb + 1);
     return 2;
@@ -155,14 +155,14 @@ int gen_case(rng_t *r, const char *op, const genopt_t *g, sbuf_t *o, int rb, int
     emit_mat(r, o, rb + 1, m, n, NULL, 0);
     emit_mat(r, o, rb + 2, m, n, NULL, 0);
     int mode = (int)rng_below(r, 4); /* 0: allocate, 1: supplied, 2: C==A, 3: C==B */
-    if (mode == 1) emit_mat(r, o, rb, m, n, "rand", 128);
+    if (mode == 1) emit_mat(r, o, rb, m, n, "junk", 128);
     sb_printf(o, "op add %d %d %d\n", mode == 2 ? rb + 1 : mode == 3 ? rb + 2 : rb, rb + 1, rb + 2);
     return 3;
   }
   if (IS("transpose") || IS("copy")) {
     int m = gen_dim(r, D), n = gen_dim(r, D);
     emit_mat(r, o, rb + 1, m, n, NULL, 0);
-    if (supplied) { if (IS("copy")) emit_mat(r, o, rb, m, n, "rand", 128); else emit_mat(r, o, rb, n, m, "rand", 128); }
+    if (supplied) { if (IS("copy")) emit_mat(r, o, rb, m, n, "junk", 128); else emit_mat(r, o, rb, n, m, "junk", 128); }
     sb_printf(o, "op %s %d %d\n", op, rb, rb + 1);
     return 2;
   }
@@ -171,14 +171,14 @@ int gen_case(rng_t *r, const char *op, const genopt_t *g, sbuf_t *o, int rb, int
     int r0 = (int)rng_below(r, (uint64_t)m), c0 = (int)rng_below(r, (uint64_t)n);
     int r1 = r0 + 1 + (int)rng_below(r, (uint64_t)(m - r0)), c1 = c0 + 1 + (int)rng_below(r, (uint64_t)(n - c0));
     emit_mat(r, o, rb + 1, m, n, NULL, 0);
-    if (supplied) emit_mat(r, o, rb, r1 - r0, c1 - c0, "rand", 128);
+    if (supplied) emit_mat(r, o, rb, r1 - r0, c1 - c0, "junk", 128);
     sb_printf(o, "op submatrix %d %d %d %d %d %d\n", rb, rb + 1, r0, c0, r1, c1);
     return 2;
   }
   if (IS("concat") || IS("stack")) {
     int m = gen_dim(r, D), n = gen_dim(r, D), x = gen_dim(r, D);
-    if (IS("concat")) { emit_mat(r, o, rb + 1, m, n, NULL, 0); emit_mat(r, o, rb + 2, m, x, NULL, 0); if (supplied) emit_mat(r, o, rb, m, n + x, "rand", 128); }
-    else { emit_mat(r, o, rb + 1, m, n, NULL, 0); emit_mat(r, o, rb + 2, x, n, NULL, 0); if (supplied) emit_mat(r, o, rb, m + x, n, "rand", 128); }
+    if (IS("concat")) { emit_mat(r, o, rb + 1, m, n, NULL, 0); emit_mat(r, o, rb + 2, m, x, NULL, 0); if (supplied) emit_mat(r, o, rb, m, n + x, "junk", 128); }
+    else { emit_mat(r, o, rb + 1, m, n, NULL, 0); emit_mat(r, o, rb + 2, x, n, NULL, 0); if (supplied) emit_mat(r, o, rb, m + x, n, "junk", 128); }
     sb_printf(o, "op %s %d %d %d\n", op, rb, rb + 1, rb + 2);
     return 3;
   }
@@ -186,7 +186,7 @@ int gen_case(rng_t *r, const char *op, const genopt_t *g, sbuf_t *o, int rb, int
     int m = gen_dim(r, D), n = gen_dim(r, D);
     emit_mat(r, o, rb + 1, m, n, NULL, 0);
     int k = m < n ? m : n;
-    if (supplied) emit_mat(r, o, rb, k, k, "rand", 128);
+    if (supplied) emit_mat(r, o, rb, k, k, "junk", 128);
     sb_printf(o, "op %s %d %d\n", op, rb, rb + 1);
     return 2;
   }
@@ -218,7 +218,7 @@ int gen_case(rng_t *r, const char *op, const genopt_t *g, sbuf_t *o, int rb, int
   if (IS("mzp_copy")) {
     int len = gen_dim(r, D);
     emit_perm(r, o, pb + 1, len, "rand");
-    if (supplied) emit_perm(r, o, pb, len + (int)rng_below(r, 5), "junk");
+    if (supplied) { int extra = (int)rng_below(r, 5); emit_perm(r, o, pb, len + extra, extra ? "rand" : "junk"); } /* a longer target keeps its tail: only an equally long one is pure output */
     sb_printf(o, "op mzp_copy %d %d\n", pb, pb + 1);
     return 0;
   }
